@@ -882,8 +882,36 @@ def weave(txt, s, notes, canary=False):
                 continue
             b1, b2, bs = cl[k - 1]
             # optional parameter types:  @closure K name: Type ; name2: Type2   (made explicit mechanically)
+            #                            @closure K ()                          (the closure takes no parameter)
             ptypes = arg.split(None, 1)[1] if len(arg.split(None, 1)) > 1 else ''
+            noparams = ptypes.strip() == '()'
+            if os.environ.get('VT_DUMP_CLOSURES') and not ptypes.strip():
+                with open(os.environ['VT_DUMP_CLOSURES'], 'a') as fh:
+                    fh.write('%s\t%d\t%r\n' % (s.args[1], k, mask[b1 + 1:b2].strip() if b2 > b1 + 1 else ''))
+            if noparams:
+                ptypes = ''
+            want = [x.split(':', 1)[0].strip() for x in ptypes.split(';') if x.strip()]
+            if want or noparams:
+                # the contract says which parameters its closure has: when the closure at position K has others (closures
+                # were reordered / one was added before it), take the only closure of the function with exactly these
+                def pnames(c):
+                    return re.findall(r'\b[A-Za-z_][A-Za-z0-9_]*\b(?=\s*(?::|,|$))', re.sub(r':[^,]*', ':', mask[c[0] + 1:c[1]]))
+                def fits(c):
+                    ptxt = mask[c[0] + 1:c[1]].strip() if c[1] > c[0] + 1 else ''
+                    if noparams:
+                        return ptxt == ''
+                    return all(re.search(r'\b%s\b' % re.escape(w), ptxt) for w in want) and len(ptxt.split(',')) == len(want)
+                if not fits(cl[k - 1]):
+                    cands = [c for c in cl if fits(c)]
+                    if len(cands) == 1:
+                        notes.add('ANCHOR-RELAXED', '@closure %d of %s matched by its parameter list (position changed)' % (k, s.args[1]))
+                        b1, b2, bs = cands[0]
+                    else:
+                        notes.add('LOST-ANCHOR', '@closure %d: the closure at this position of %s has other parameters and %d closures fit' % (k, s.args[1], len(cands)))
+                        continue
             for pt in [x.strip() for x in ptypes.split(';') if x.strip()]:
+                if ':' not in pt:
+                    continue        # a bare name only identifies the closure
                 pname, ptype = [x.strip() for x in pt.split(':', 1)]
                 mo = re.search(r'\b%s\b(?!\s*:)' % re.escape(pname), mask[b1 + 1:b2])
                 if mo:
